@@ -302,12 +302,14 @@ template <class G> class Explorer {
                 G g2(recs[s].g);
                 Outcome real = applyReal(g2, op);
                 ++transitions;
+                digestNum((unsigned long long)real);
                 if (want != OK) ++throwingSteps;
                 if (m2 == recs[s].m) ++noopSteps;
                 ClauseSink sink;
                 sink.property = prop;
                 stepClauses(recs[s].g, recs[s].m, op, g2, m2, real, want, sink);
                 std::string k = keyOf(g2, cfg.completeKey);
+                digest(k);
                 // Hidden-state guard: two objects with the same public-API key that do not compare equal
                 // (operator== also sees label entries no getter shows) are kept as DIFFERENT states, so
                 // that state a getter cannot see is still expanded.  At most 4 variants per key.
